@@ -25,7 +25,8 @@ INSTANCE PlanState WITH Pkgs <- TPkgs, ChoicePts <- TChoicePts, Blockers <- TBlo
 RevOf(o) == [cb \in TChoicePts \X TBlockers |->
                LET hits == {k \in DOMAIN o.rev : o.rev[k][1] = cb[1] /\ o.rev[k][2] = cb[2]} IN
                IF hits = {} THEN 0 ELSE o.rev[CHOOSE k \in hits : TRUE][3]]
-Obs(o) == [plan |-> o.plan, slots |-> AsSet(o.slots), limiters |-> AsSet(o.limiters),
+\* observed limiters are [blocker, key it is filed under] pairs
+Obs(o) == [plan |-> o.plan, slots |-> AsSet(o.slots), limiters |-> {o.limiters[k][1] : k \in DOMAIN o.limiters},
            choice |-> [p \in TPkgs |-> o.choice[p]],
            rev |-> RevOf(o),
            refcnt |-> [b \in TBlockers |-> o.refcnt[b]],
@@ -69,6 +70,8 @@ Judge(cur, e) ==
        IN (IF e.raised THEN {tag \o "_raised"} ELSE {})
           \cup Diff(tag, obs, exp.s)
           \cup (IF ~e.raised /\ AsSet(e.ret) # exp.ret THEN {"ReturnValue"} ELSE {})
+          \cup (IF \A k \in DOMAIN e.st.limiters : e.st.limiters[k][2] = TBKeyOf[e.st.limiters[k][1]]
+                THEN {} ELSE {"LimiterFiledUnderKey"})
           \cup (IF StateIsReplay(obs) THEN {} ELSE {"StateIsReplay"})
           \cup (IF RefcntIsLive(obs) THEN {} ELSE {"RefcntIsLive"})
           \cup (IF LimitersAreReferenced(obs) THEN {} ELSE {"LimitersAreReferenced"})
